@@ -8,7 +8,7 @@ namespace Cares.Chan
 theorem StepS.drop_xi_fresh {xf d} {a b : Sk} {id : Nat} (h : StepS xf (some id) d a b) (hf : a.nextClient ≤ id) :
     StepS xf none d a b :=
   ⟨h.faults, h.kMono, h.keyMono, h.idxNew, h.unl,
-    fun i hi _ hn => h.orphan i hi (fun he => by have := Option.some.inj he; omega) hn, h.debtAlive⟩
+    fun i hi _ hn => h.orphan i hi (fun he => by have := Option.some.inj he; omega) hn, h.debtAlive, h.prog⟩
 
 theorem sk_addClient_st (s : St) (c : Client) :
     ({ s with clients := s.clients ++ [c], nextClient := s.nextClient + 1 } : St).sk = s.sk.addClient c.sk := by
